@@ -437,6 +437,8 @@ package composite
 //@   requires len(parentRevisions) >= 1
 //@   // the entry appended to a revision's new children list carries exactly the names that survived the filter
 //@   at append#2(s, els) [C09,C07]: len(els) == 1 && sameslice(els[0].Names, cur(names))
+//@   // a claim survives only if the *latest* revision still desires the child (whichever revision holds the claim)
+//@   at RelativeObjectMap.FindGroupKindName(m, gk, n) [C08,C09]: m == parentRevisions[0].desiredChildMap
 //@   ensures [C09] claimed != nil
 //@   // every claim points to one of the revisions passed in (list shape, see syncRollingUpdate)
 //@   ensures-assumed forall k string, n string :: has(claimed, k) && has(claimed[k], n) ==> claimed[k][n] != nil && claimed[k][n].revision != nil && claimed[k][n].parent != nil
